@@ -21,6 +21,7 @@ type Expr interface{}
 type EIdent struct{ Name string }
 type EInt struct{ V *big.Int }
 type EBool struct{ V bool }
+type EFloat struct{ V float64 }
 type EStr struct{ V string }
 type ENil struct{}
 type EUn struct {
@@ -75,6 +76,15 @@ func lex(src string) ([]tok, error) {
 			j := i
 			for j < len(src) && (isAlnum(src[j]) || src[j] == '_') {
 				j++
+			}
+			if j+1 < len(src) && src[j] == '.' && src[j+1] >= '0' && src[j+1] <= '9' {
+				j++
+				for j < len(src) && src[j] >= '0' && src[j] <= '9' {
+					j++
+				}
+				out = append(out, tok{"float", src[i:j]})
+				i = j
+				continue
 			}
 			out = append(out, tok{"int", strings.ReplaceAll(src[i:j], "_", "")})
 			i = j
@@ -347,6 +357,12 @@ func (p *parser) parsePrimary() Expr {
 			panic(fmt.Errorf("bad integer %q", t.s))
 		}
 		return &EInt{v}
+	case "float":
+		f, err := strconv.ParseFloat(t.s, 64)
+		if err != nil {
+			panic(fmt.Errorf("bad float %q", t.s))
+		}
+		return &EFloat{f}
 	case "str":
 		return &EStr{t.s}
 	case "id":
@@ -366,8 +382,13 @@ func (p *parser) parsePrimary() Expr {
 			if p.isID("in") {
 				p.next()
 				lo = p.parseAdd()
-				p.expectOp("..")
-				hi = p.parseAdd()
+				if kc, ok := lo.(*ECall); ok && kc.Fn == "keys" && !p.isOp("..") {
+					// forall v in keys(m): expanded over the statically known keys of map m
+					hi = nil
+				} else {
+					p.expectOp("..")
+					hi = p.parseAdd()
+				}
 			}
 			p.expectOp(":")
 			body := p.parseIff()
@@ -377,7 +398,7 @@ func (p *parser) parsePrimary() Expr {
 			p.next()
 			var args []Expr
 			for !p.isOp(")") {
-				if t.s == "istype" && len(args) == 1 {
+				if (t.s == "istype" || t.s == "implements") && len(args) == 1 {
 					args = append(args, &ETypeLit{p.parseType()})
 				} else {
 					args = append(args, p.parseIff())
@@ -460,6 +481,7 @@ type Contract struct {
 	Ghost      []string
 	File       string
 	Line       int
+	PkgName    string
 	Notes      []string
 }
 
@@ -544,7 +566,7 @@ func (cs *ContractSet) LoadContractFile(path, pkgName string, trusted bool) erro
 			if _, dup := cs.Funcs[key]; dup {
 				return fail(fmt.Errorf("duplicate contract for %s", key))
 			}
-			cur = &Contract{Key: key, Loops: map[int]*LoopSpec{}, Trusted: isTrusted, Interface: isIface, File: path, Line: ln + 1}
+			cur = &Contract{Key: key, Loops: map[int]*LoopSpec{}, Trusted: isTrusted, Interface: isIface, File: path, Line: ln + 1, PkgName: pkgName}
 			cs.Funcs[key] = cur
 		case "uf":
 			// uf name(Int, Int) Int   -- uninterpreted function over Int/Bool
